@@ -25,7 +25,7 @@ Definition policy_table : list (list bool) :=
 (* chain_row::execute_helper of back and back11, instantiated with two stub rows and tabulated:
    continue res = is the rest of the chain executed after a first row returning res;
    merge res sub = the value returned when the rest returned sub *)
-Definition back_chain_continue : list bool := [true; false; true; true; false; true; true; true].
+Definition back_chain_continue : list bool := [true; false; true; false; false; false; false; false].
 Definition back_chain_merge : list (list nat) :=
   [ [0; 1; 2; 3; 4; 5; 6; 7];
     [0; 1; 2; 3; 4; 5; 6; 7];
@@ -35,7 +35,7 @@ Definition back_chain_merge : list (list nat) :=
     [0; 1; 2; 3; 4; 5; 6; 7];
     [0; 1; 2; 3; 4; 5; 6; 7];
     [0; 1; 2; 3; 4; 5; 6; 7] ].
-Definition back11_chain_continue : list bool := [true; false; true; true; false; true; true; true].
+Definition back11_chain_continue : list bool := [true; false; true; false; false; false; false; false].
 Definition back11_chain_merge : list (list nat) :=
   [ [0; 1; 2; 3; 4; 5; 6; 7];
     [0; 1; 2; 3; 4; 5; 6; 7];
@@ -46,7 +46,7 @@ Definition back11_chain_merge : list (list nat) :=
     [0; 1; 2; 3; 4; 5; 6; 7];
     [0; 1; 2; 3; 4; 5; 6; 7] ].
 (* favor_compile_time chain_row::operator(): the loop runs while continue res; step res handled *)
-Definition fct_chain_continue : list bool := [true; false; true; true; false; true; true; true].
+Definition fct_chain_continue : list bool := [true; false; true; false; false; false; false; false].
 Definition fct_chain_step : list (list nat) :=
   [ [0; 1; 2; 3; 4; 5; 6; 7];
     [0; 1; 2; 3; 4; 5; 6; 7];
@@ -57,10 +57,10 @@ Definition fct_chain_step : list (list nat) :=
     [0; 1; 2; 3; 4; 5; 6; 7];
     [0; 1; 2; 3; 4; 5; 6; 7] ].
 (* conditions cut out of the source and tabulated over the result codes 0..7 *)
-(* back process_fsm_internal_table:   result != HANDLED_TRUE *)
-Definition back_internal_tried : list bool := [true; false; true; true; true; true; true; true].
-(* back11 process_fsm_internal_table: result != ::boost::msm::back::HANDLED_TRUE *)
-Definition back11_internal_tried : list bool := [true; false; true; true; true; true; true; true].
+(* back process_fsm_internal_table:   !(result & (HANDLED_TRUE | HANDLED_DEFERRED)) *)
+Definition back_internal_tried : list bool := [true; false; true; false; false; false; false; false].
+(* back11 process_fsm_internal_table: !(result & (::boost::msm::back::HANDLED_TRUE | ::boost::msm::back::HANDLED_DEFERRED)) *)
+Definition back11_internal_tried : list bool := [true; false; true; false; false; false; false; false].
 (* back do_handle_deferred:           res != ::boost::msm::back::HANDLED_FALSE && res != ::boost::msm::back::HANDLED_DEFERRED *)
 Definition back_deferred_stops : list bool := [false; true; true; true; false; true; true; true].
 (* backmp11 transition_chain::execute with stub rows: stop acc / value returned when it stops *)
